@@ -67,7 +67,7 @@ Definition dv_of_sres (r : sres) : option dv :=
 Definition on_scalar (text : str) (st_ : style) (st : lstate) : lstate :=
   match stack st with
   | NMap fs None :: tl => {| stack := NMap fs (Some text) :: tl; docs_rev := docs_rev st; failed := failed st |}
-  | _ => match dv_of_sres (resolve FJson st_ None text) with
+  | _ => match dv_of_sres (resolve st_ None text) with
          | Some v => push_node v st
          | None => {| stack := stack st; docs_rev := docs_rev st; failed := true |}
          end
